@@ -150,6 +150,7 @@ func (p *OutPort) Open(proc *process.Process) *packet.Writer {
 		return writer
 	}
 
+	verifYield(13)
 	p.mu.Lock()
 
 	writer, ok = p.writers[proc]
